@@ -102,7 +102,8 @@ def run(tier="quick", seed=0, replay=None):
     if replay:
         print(open(replay).read())
         return 1
-    core.lean_stage(chk, "C16", extra_props=["C16a", "C16b"])
+    core.lean_stage(chk, "C16", extra_props=["C16a"])
+    core.soft_stage(chk, ["C16b"], "confidence-bound expression regenerated from base.py = Model/Explainer.lean confBound")
     from harness import cover
     from harness import fingerprint
     fingerprint.direct(chk, ['ixai/explainer/base.py'])
